@@ -375,6 +375,7 @@ func EvalOne(ctx context.Context, s *eval.State, what string, out io.Writer, opt
 	formatted string,
 ) {
 	if !options.PanicOk {
+		savedOut := s.Out
 		defer func() {
 			if r := recover(); r != nil {
 				panicked = true
@@ -386,6 +387,8 @@ func EvalOne(ctx context.Context, s *eval.State, what string, out io.Writer, opt
 				// reset the state so the interpreter can continue post catching the panic (avoids putting s.depth-- in a defer) but
 				// also resets to top level root env.
 				s.Reset()
+				// A panic inside a function call leaves that call's capture buffer installed as s.Out.
+				s.Out = savedOut
 				errs = append(errs, fmt.Sprintf("panic: %v", r))
 				return
 			}
